@@ -125,6 +125,9 @@ def correspondence(chk, res, replay, control=True, publish=True):
                               "correspondence": "Model/Publish.lean moveOps vs RepositoryMirror.move_metadata"}, d, no_input=True)
             if d is not None:
                 chk.count("publish_op_sequences_compared")
+    # L2 whole-run model (Model/Mirror.lean): pool stage / clean of every repository that ended without error
+    from . import run_e2e
+    run_e2e.flush_l2(chk, {"scenario": replay})
     if control and res.exit in (0, 1) and res.obs.repos and all(r["result"] is not None for r in res.obs.repos.values()):
         m = driver().call("exit", results=[r["result"] for r in res.obs.repos.values()])
         if m != res.exit:
